@@ -240,7 +240,7 @@ def compare_arith(ctx, case, r, r2, m):
 
 def compare_tree(ctx, case, r, m):
     """model vs real: value (plain and linearised), dense Jacobian, dense adjoint, metric presence and entries"""
-    nontriv = any(n["t"] in ("ptw", "mul", "vdot", "sqnorm", "quad", "gauss") for n in X.nodes(case["expr"]))
+    nontriv = any(n["t"] in ("ptw", "mul", "vdot", "sqnorm", "quad", "gauss", "bil", "varcov") for n in X.nodes(case["expr"]))
     ctx.case(case, nontrivial=nontriv)
     if "error" in r or "error" in m:
         if not ("error" in r and "error" in m):
@@ -278,6 +278,15 @@ def expected_metric(b, t, x, din):
             r = X.linearize(b, a, X.dom(t["a"]), x, False)
         J = embed_cols(r["jac"], da, din)
         return J.T @ np.diag(np.array(t["icov"])) @ J
+    if k == "varcov":
+        with quiet():
+            parts = []
+            for sub in (t["a"], t["b"]):
+                o = b.build(sub)
+                r = X.linearize(b, o, X.dom(sub), x, False)
+                parts.append((embed_cols(r["jac"], X.op_indom(b, o), din), r["val"]))
+        (Ja, _), (Jb, vb) = parts
+        return Ja.T @ np.diag(vb) @ Ja + Jb.T @ np.diag(0.5 / vb ** 2) @ Jb
     if k == "add":
         ma, mb = expected_metric(b, t["a"], x, din), expected_metric(b, t["b"], x, din)
         return None if (ma is None or mb is None) else ma + mb
@@ -377,7 +386,7 @@ def oracle(case):
 
 HOLO_PTW = {"sin", "cos", "exp", "expm1", "sinh", "cosh", "tanh", "sigmoid", "reciprocal", "sqrt", "log", "log10",
             "log1p", "power", "exponentiate", "tan", "arctan"}
-HOLO_NODES = {"var", "add", "sub", "mul", "scale", "addc", "mulc", "ptw", "lin", "sum", "getKey", "putKey", "chain"}
+HOLO_NODES = {"var", "add", "sub", "mul", "scale", "addc", "mulc", "ptw", "lin", "sum", "getKey", "putKey", "chain", "bil"}
 
 
 def holomorphic(t):
